@@ -11,10 +11,10 @@ IMPORTS = "From Coq Require Import List ZArith.\nFrom SV Require Import Model.St
 def gen_case(rng):
     dyadic = rng.random() < 0.75
     sr = float(2 ** rng.randint(4, 20)) if dyadic else rng.choice([3e9, 1e6 + 1, 2.5e9, rng.uniform(1e5, 6e9)])
-    nnoise = rng.choice([0, 1, 1, 1, 2])
+    nnoise = rng.choice([0, 0, 1, 1, 1, 2])
     noise = [[rng.choice([0.0, 1.5, -2.0]), rng.choice([1.0, 0.5, 3.0])] for _ in range(nnoise)]
     chirps = []
-    for _ in range(rng.choice([0, 0, 1, 2])):
+    for _ in range(rng.choice([0, 0, 1, 2]) if nnoise else rng.choice([0, 1, 1, 2])):
         chirps.append(dict(f_start=rng.uniform(0.0, sr / 2), drift=rng.uniform(-1, 1) * sr / 50, level=rng.uniform(0.1, 2), phase=rng.uniform(0, 6)))
     t0 = rng.choice([0, 0, 7, 1000, 12345])
     ops = []
